@@ -384,6 +384,10 @@ func c15Gen(c *vfCtx, emit func(c15Case)) {
 			ps := c15DocPaths(trees)
 			npaths += len(ps)
 			for pi := range ps {
+				if lang == "json" {
+					// a Type that no JSON value satisfies, with ErrOnMissingPath(false): the path EXISTS, so this is an error, not a skipped path
+					emit(c15Case{Lang: lang, Doc: doc, Path: pi, Path2: -1, Kind: "typewrong-optional", PH: 0, Via: "direct"})
+				}
 				for _, kind := range []string{"customtwice", "typeany"} {
 					if (pi%2 == 0 || c.thorough()) && (kind != "typeany" || lang == "json") {
 						via := "api"
@@ -429,6 +433,10 @@ func c15Gen(c *vfCtx, emit func(c15Case)) {
 						continue
 					}
 					emit(c15Case{Lang: lang, Doc: doc, Path: pi, Path2: pj, Kind: "custom", PH: 0, Bytes: true, Via: "api"})
+					if pj != pi {
+						// Any(p1), Custom(p2), Any(p2): three matchers, the last one wins at p2 and the callback sees the value the document has there
+						emit(c15Case{Lang: lang, Doc: doc, Path: pi, Path2: pj, Kind: "sandwich", PH: 0, Via: "api"})
+					}
 				}
 			}
 		}
@@ -604,6 +612,15 @@ func c15Run(c *vfCtx, cs c15Case) {
 		c15Multi(c, cs, trees, ps, di, p, path, class)
 		return
 	}
+	if cs.Kind == "typewrong-optional" {
+		out, errs := match.Type[struct{ Never int }](path).ErrOnMissingPath(false).JSON([]byte(cs.Doc))
+		c.count("transitions", 1)
+		c.outcome(fmt.Sprintf("typewrong-optional:errors=%d", len(errs)))
+		if len(errs) == 0 {
+			c.violation(class, fmt.Sprintf("Type[struct] at the existing path %s of %q with ErrOnMissingPath(false): no error is reported although no JSON value has that type; result %q", path, vfClip(cs.Doc), vfClip(string(out))), cs)
+		}
+		return
+	}
 	target := trees[di].at(p)
 	ph := c15PH[cs.PH]
 	phTree := c15PHTree(ph)
@@ -638,6 +655,10 @@ func c15Run(c *vfCtx, cs c15Case) {
 	case "custom":
 		m := match.Custom(path, custom(ph))
 		jm, ym = append(jm, m), append(ym, m)
+	case "sandwich":
+		m := match.Any(path)
+		jm, ym = append(jm, m), append(ym, m)
+		phTree = c15PHTree("<Any value>")
 	case "customtwice":
 		// the SAME matcher instance listed twice (and an Any instance before and after it): matchers take effect left to right,
 		// every occurrence runs. The callback counts its invocations.
@@ -694,10 +715,30 @@ func c15Run(c *vfCtx, cs c15Case) {
 		if !ok {
 			return
 		}
+		if cs.Kind == "sandwich" {
+			m2, m3 := match.Custom(path2, custom("checked")), match.Any(path2)
+			jm, ym = append(jm, m2, m3), append(ym, m2, m3)
+			sees := want[di].at(p2)
+			want[di] = want[di].replaced(p2, c15PHTree("<Any value>"))
+			defer func() {
+				if len(seen) == 1 {
+					got, _ := vfJSONTree([]byte(seen[0]))
+					if got != nil && cs.Lang == "json" && vfNumNorm(got.sorted().String()) != vfNumNorm(sees.sorted().String()) {
+						c.violation(class, fmt.Sprintf("matchers must take effect left to right: the callback between two Any matchers received %s, the value at %s is %s when its turn comes", seen[0], path2, sees), cs)
+					}
+				}
+			}()
+		}
 		m2 := match.Custom(path2, custom("second"))
-		jm, ym = append(jm, m2), append(ym, m2)
+		if cs.Kind == "sandwich" {
+			m2 = nil
+		} else {
+			jm, ym = append(jm, m2), append(ym, m2)
+		}
 		secondSees := want[di].at(p2)
-		want[di] = want[di].replaced(p2, c15PHTree("second"))
+		if cs.Kind != "sandwich" {
+			want[di] = want[di].replaced(p2, c15PHTree("second"))
+		}
 		defer func() {
 			if len(seen) == 2 {
 				got, _ := vfJSONTree([]byte(seen[1]))
